@@ -89,6 +89,24 @@ class _Subst(ast.NodeTransformer):
                 return copy.deepcopy(self.env[n.id])
         return n
 
+    def _object(self, name):
+        """the local is bound to a freshly constructed object (`ind = Individual(v)`): its identity matters, so a read of its
+        state `ind.costs[0]` is not rewritten into a read from a second construction"""
+        v = self.env.get(name)
+        return isinstance(v, ast.Call) and isinstance(v.func, (ast.Name, ast.Attribute)) and \
+            (access_path(v.func) or "").split(".")[-1][:1].isupper()
+
+    def visit_Attribute(self, n):
+        r = n
+        while isinstance(r, (ast.Attribute, ast.Subscript)):
+            r = r.value
+        if isinstance(r, ast.Name) and isinstance(r.ctx, ast.Load) and r.id in self.env and r.id not in self.skip and self._object(r.id):
+            # expand the index expressions only
+            return _Subst(self.env, self.dirty, self.skip | {r.id}).generic_visit(n)
+        return self.generic_visit(n)
+
+    visit_Subscript = visit_Attribute
+
     def visit_Lambda(self, n):
         bound = {a.arg for a in n.args.args}
         return _Subst({k: v for k, v in self.env.items() if k not in bound}, self.dirty, self.skip).generic_visit(n)
